@@ -50,6 +50,17 @@ func reply(rng interface{ Intn(int) int }, n int) (text string, certs []ssh.Publ
 				spec.Principals = append(spec.Principals, fmt.Sprintf("host-%d.example.com", p))
 			}
 		}
+		if i > 0 && rng.Intn(5) == 0 {
+			// what a CA that does not number its certificates returns for one request: the same key, serial 0 and key id as the
+			// previous certificate, other principals
+			prev := certs[len(certs)-1].(*ssh.Certificate)
+			for _, pk := range gen.Pool() {
+				if string(pk.Pub.Marshal()) == string(prev.Key.Marshal()) {
+					spec.Key = pk
+				}
+			}
+			spec.KeyID, spec.Serial, spec.Principals = prev.KeyId, prev.Serial, []string{fmt.Sprintf("other-principal-%d", i)}
+		}
 		c := gen.MakeCert(spec)
 		line := strings.TrimSuffix(string(ssh.MarshalAuthorizedKey(c)), "\n")
 		comment := []string{"", "touch", "two words", "c" + fmt.Sprint(i), "ünï"}[rng.Intn(5)]
